@@ -25,7 +25,7 @@ def sh(cmd, cwd=None, env=None, timeout=3600):
 
 
 def nextest(wt):
-    env = dict(os.environ, CARGO_TARGET_DIR=os.path.join(wt, "target"), CARGO_NET_OFFLINE="true", RUST_BACKTRACE="0")
+    env = dict(os.environ, CARGO_TARGET_DIR=os.path.join(wt, "target"), CARGO_NET_OFFLINE="true", RUST_BACKTRACE="0", CARGO_PROFILE_DEV_DEBUG="line-tables-only", CARGO_BUILD_JOBS="8")
     rc, out = sh("cargo nextest run --workspace --no-fail-fast --test-threads 8 --offline 2>&1 | grep -E '^\\s+(FAIL|PASS)|Summary|error(\\[|:)' | cut -c1-200", cwd=wt, env=env)
     fails = sorted(set(re.findall(r"FAIL \[[^\]]*\] (?:\(\s*\d+/\d+\) )?(?:\(\S+\) )?(\S+ \S+)", out)))
     m = re.search(r"(\d+) tests run: (\d+) passed(?: \(\d+ \w+\))?(?:, (\d+) failed)?", out)
